@@ -10,15 +10,19 @@ PROPERTY = "C18"
 FUNCTIONS = ["gcmpy.tools.bond_percolate.bond_percolate"]
 STUBS = ["random.random() -> fresh real r in [0,1), one per call (uniformity/independence of the draws is trusted)"]
 BOUNDS = {
-    "quick": "every graph with 1..4 vertices (isolated vertices and disconnected graphs included), stars with <=5 leaves; "
-             "phi symbolic in [0,1] plus phi fixed to 0 and to 1; one symbolic draw per edge, all 2^|E| comparison outcomes",
+    "quick": "every graph with 1..4 vertices (isolated vertices and disconnected graphs included), stars with <=5 leaves, two 9-vertex graphs, "
+             "three multigraphs; phi symbolic in (0,1) plus phi fixed to 0 and to 1; one symbolic draw per bond; on ONE path the function is "
+             "called once for each of the 2^|E| above/below-phi patterns of the draws (the draws stay symbolic inside their region), and the "
+             "table of results must be explained by some one-to-one assignment of draws to bonds (any order in which the bonds are visited)",
     "thorough": "additionally every 5-vertex graph with <= 7 edges",
 }
-OUTSIDE = "graphs with more than 5 vertices / 7 edges; the measure-zero boundary r_e = phi; re-implementations that do not " \
-          "draw through random.random()/uniform() once per edge are reported as undecided (note), not as violations"
+OUTSIDE = "graphs with more than 5 vertices / 8 edges; the measure-zero boundary r_e = phi; re-implementations that do not " \
+          "draw through random.random()/uniform() once per bond are reported as undecided (note), not as violations; for more than " \
+          "7 bonds only the visiting orders 'as iterated' and 'reversed' are tried (otherwise undecided)"
 ASSUMPTIONS = ["random.random() draws are independent and uniform on [0,1) (CPython)",
-               "edge e is 'kept' iff its draw r_e < phi; Pr[r_e < phi] = phi, so the kept set is the Bernoulli(phi) product "
-               "measure; the star statement Binomial(M,phi)/M follows from the per-edge law proved here"]
+               "a bond is 'kept' iff its own draw is below phi (Pr = phi), whichever draw that is: a fixed one-to-one assignment of the m draws "
+               "to the m bonds pushes the product measure to the Bernoulli(phi) product measure on kept sets; the star statement "
+               "Binomial(M,phi)/M follows from the per-bond law proved here"]
 EXPECTED_LABELS = ["law", "input-untouched", "range"]
 VALIDATE_EVERY = 7
 
@@ -79,9 +83,37 @@ def lcc(nodes, edges):
     return best
 
 
-def path(ctx, cfg):
-    from fractions import Fraction
+def lcc_table(nodes, order):
+    """largest-component size for every subset (bit mask) of the bonds"""
+    m = len(order)
+    return [lcc(nodes, [order[j] for j in range(m) if mask >> j & 1]) for mask in range(1 << m)]
 
+
+def explain(table, results, m, N, full_search):
+    """a permutation p (draw j decides bond p[j]) with results[sigma] == lcc(bonds kept under p) / N for every pattern sigma, or None"""
+    def fits(p):
+        for sigma, S in results.items():
+            mask = 0
+            for j in range(m):
+                if sigma[j]:
+                    mask |= 1 << p[j]
+            if abs(S * N - table[mask]) > 1e-9:
+                return False
+        return True
+
+    ident = tuple(range(m))
+    for p in (ident, ident[::-1]):
+        if fits(p):
+            return p
+    if not full_search:
+        return "not searched"
+    for p in itertools.permutations(range(m)):
+        if fits(p):
+            return p
+    return None
+
+
+def path(ctx, cfg):
     from gcmpy.tools.bond_percolate import bond_percolate
 
     nodes, edges = cfg["nodes"], cfg["edges"]
@@ -98,36 +130,57 @@ def path(ctx, cfg):
             g.edges[a, b]["w"] = (a, b)
     if cfg["phi"] == "sym":
         phi = ctx.real("phi", 0, 1)
+        patterns = list(itertools.product([0, 1], repeat=m))
     else:
         phi = 1.0 if cfg["phi"] == "one" else 0.0
+        patterns = [tuple([1 if cfg["phi"] == "one" else 0] * m)]
     before = (list(g.nodes()), [(a, b, dict(d)) for a, b, d in g.edges(data=True)])
     if cfg.get("second"):
         # an earlier call on the same graph object with phi = 0 (everything dropped) must leave no trace
         ctx.guard("percolate-raised", bond_percolate, g, 0.0)
-    n0 = len(ctx.rng_log)
-    S = ctx.guard("percolate-raised", bond_percolate, g, phi)
-    after = (list(g.nodes()), [(a, b, dict(d)) for a, b, d in g.edges(data=True)])
-    ctx.require(before == after, "input-untouched", "bond_percolate modified its input graph", twin=(before != after))
-    ctx.observe("S", S)
-    ok_range = isinstance(S, float) and any(abs(S * N - j) < 1e-9 for j in range(1, N + 1))
-    ctx.require(ok_range, "range", f"result {S} is not a multiple of 1/{N} in [1/{N}, 1]", twin=(not ok_range))
-    draws = [r for r in ctx.rng_log[n0:] if r["fn"] == "random"]
-    if len(draws) != len(ctx.rng_log) - n0:
-        ctx.note("undecided: edges are not randomised through random.random()/uniform() only")
+    order = list(g.edges())
+    results = {}
+    undecided = False
+    for sigma in patterns:
+        seen = [0]
+
+        def hook(r, sigma=sigma, seen=seen):
+            j = seen[0]
+            seen[0] += 1
+            if j < m:
+                ctx.assume((r < phi) if sigma[j] else (r > phi))  # the j-th draw of this call lies below / above phi
+
+        ctx.random_hook = hook
+        n0 = len(ctx.rng_log)
+        try:
+            S = ctx.guard("percolate-raised", bond_percolate, g, phi)
+        finally:
+            ctx.random_hook = None
+        after = (list(g.nodes()), [(a, b, dict(d)) for a, b, d in g.edges(data=True)])
+        ctx.require(before == after, "input-untouched", "bond_percolate modified its input graph", twin=(before != after))
+        ok_range = isinstance(S, float) and any(abs(S * N - j) < 1e-9 for j in range(1, N + 1))
+        ctx.require(ok_range, "range", f"result {S} is not a multiple of 1/{N} in [1/{N}, 1]", twin=(not ok_range))
+        draws = [r for r in ctx.rng_log[n0:] if r["fn"] == "random"]
+        if len(draws) != len(ctx.rng_log) - n0:
+            ctx.note("undecided: edges are not randomised through random.random()/uniform() only")
+            undecided = True
+            break
+        ctx.require(len(draws) == m, "law", f"nodes={nodes} edges={edges}: {len(draws)} uniform draws for {m} bonds (each bond needs its own independent draw)",
+                    sig="law:draws-per-bond")
+        if len(draws) != m or not ok_range:
+            return
+        results[sigma] = float(S)
+    ctx.observe("S", [results[s] for s in sorted(results)])
+    if undecided:
         return
-    ctx.require(len(draws) == m, "law", f"nodes={nodes} edges={edges}: {len(draws)} uniform draws for {m} bonds (each bond needs its own independent draw)",
-                sig="law:draws-per-bond")
-    if len(draws) != m:
+    table = lcc_table(nodes, order)
+    p = explain(table, results, m, N, full_search=m <= 7)
+    if p == "not searched":
+        ctx.note("undecided: results not explained by the bonds in iteration / reversed order and too many bonds to search every assignment")
         return
-    order = list(g.edges())  # G = g.copy() iterates edges in the same order
-    r = [d["result"] for d in draws]
-    conds, twins = [], []
-    for sigma in itertools.product([0, 1], repeat=m):
-        match = all_((r[j] < phi) if sigma[j] else (r[j] > phi) for j in range(m))
-        kept = [order[j] for j in range(m) if sigma[j]]
-        want = lcc(nodes, kept) / N
-        conds.append(implies(match, eq(S, want)))
-        twins.append(implies(match, eq(S, lcc(nodes, [order[j] for j in range(m) if not sigma[j]]) / N)))
-    ctx.require(all_(conds), "law",
-                lambda: f"nodes={nodes} edges={order}: result {S} is not the largest-component fraction of the edges with r_e < phi",
-                twin=all_(twins) if m and lcc(nodes, order) > 1 else None)
+    shown = {"".join(map(str, s)): round(v * N) for s, v in sorted(results.items())}
+    ctx.require(p is not None, "law",
+                lambda: f"nodes={nodes} edges={order}: largest-component sizes by pattern of draws below phi {shown} are not those of the kept bonds "
+                        f"under any one-to-one assignment of draws to bonds",
+                twin=(explain(table, {tuple(1 - x for x in s): v for s, v in results.items()}, m, N, m <= 7) is not None)
+                if m and table[-1] > 1 and len(patterns) > 1 else None)
